@@ -161,3 +161,23 @@ impl<'t> Worker<'t> {
         self.tokenizer.dictionary()
     }
 }
+
+impl Dictionary {
+    /// Number of words stored in the system (0) or user (1) lexicon, or unknown entries (2).
+    pub fn verif_num_words(&self, lex_type: u8) -> usize {
+        match lex_type {
+            0 => self.system_lexicon().verif_len(),
+            1 => self.user_lexicon().map_or(0, |l| l.verif_len()),
+            _ => self.unk_handler().verif_entries().len(),
+        }
+    }
+
+    /// Unknown entries in stored order: (category id, left id, right id, cost, feature).
+    pub fn verif_unk_entries(&self) -> Vec<(u16, u16, u16, i16, String)> {
+        self.unk_handler()
+            .verif_entries()
+            .iter()
+            .map(|e| (e.cate_id, e.left_id, e.right_id, e.word_cost, e.feature.clone()))
+            .collect()
+    }
+}
